@@ -390,7 +390,7 @@ func TestC18(t *testing.T) {
 		r.Exhaustive = true
 		r.Extra["exhaustive_scope"] = "n<=3 ordered needs lists as described; n=4 all 65536 edge sets x 2 orders" + map[bool]string{true: "; n=5 all 2^20 loop-free edge sets x 2 orders, 1/32 sample of the 2^25 edge sets with self loops", false: ""}[hx.Thorough()]
 		// (3) random larger graphs
-		r.Check(t, "random-large", hx.N(300, 4000), func(rt *rapid.T) {
+		r.Check(t, "random-large", hx.N(800, 8000), func(rt *rapid.T) {
 			n := rapid.IntRange(6, 30).Draw(rt, "n")
 			style := rapid.SampledFrom([]string{"sparse", "dense", "chain", "dag+back", "dangling"}).Draw(rt, "style")
 			// job ids: j0..jN, or ids composed of the same few atoms with - and _ (ids that are prefixes,
@@ -398,7 +398,13 @@ func TestC18(t *testing.T) {
 			composed := rapid.Bool().Draw(rt, "composed-ids")
 			var ids, spare []string
 			if composed {
-				pool := rapid.Permutation(c18composed).Draw(rt, "idpool")
+				// two families: ids composed of a, b, c (the first 30 entries), or all of them incl. the
+				// keyword-like ones
+				src := c18composed[:30]
+				if rapid.IntRange(0, 2).Draw(rt, "withkeywords") == 0 {
+					src = c18composed
+				}
+				pool := rapid.Permutation(src).Draw(rt, "idpool")
 				n = rapid.IntRange(3, 14).Draw(rt, "ncomposed")
 				ids, spare = pool[:n], pool[n:]
 			} else {
